@@ -201,7 +201,7 @@ def gen_case(rng, index, tier):
     for _ in range(nops):
         r = rng.random()
         if r < 0.5:
-            ops.append(dict(op='call', k=rng.randrange(nsets), how=rng.choice(['same', 'same', 'same', 'fresh', 'readonly', 'noncontig', 'extra', 'asint', 'onearray', 'roview', 'roview_int', 'roview_int'])))
+            ops.append(dict(op='call', k=rng.randrange(nsets), how=rng.choice(['same', 'same', 'same', 'fresh', 'readonly', 'noncontig', 'extra', 'asint', 'onearray', 'roview', 'roview_int', 'roview_int', 'feedback', 'feedback'])))
         elif r < 0.7:
             ops.append(dict(op='scribble', j=rng.randrange(6)))
         elif r < 0.8:
@@ -457,6 +457,23 @@ def run_compiled(case, skip_first_run_views=False):
                     if not numpy.array_equal(b_, v):
                         b_[...] = v if not asint else numpy.round(v).astype(int)
                     passed[n] = w
+            elif how == 'feedback':
+                # an array RETURNED by an earlier call is handed back as an argument (iteration: the result of step k is the input of step k+1)
+                passed = dict(a)
+                fed = None
+                for arrays, _, _ in reversed(returned):
+                    for arr in arrays:
+                        for n in sorted(a):
+                            if isinstance(arr, numpy.ndarray) and arr.shape == a[n].shape and arr.dtype == a[n].dtype and arr.size and n not in BOUNDS and n != 'sel' and numpy.isfinite(arr).all() and abs(arr).max() < 1e6 and not any(arr is v for v in a.values()):
+                                passed[n] = arr
+                                fed = n
+                                break
+                        if fed:
+                            break
+                    if fed:
+                        break
+                if fed is None:
+                    how = 'same'
             elif how == 'onearray':
                 # one ndarray object passed for two arguments of equal shape and dtype
                 passed = dict(a)
@@ -471,7 +488,24 @@ def run_compiled(case, skip_first_run_views=False):
             except Exception as e:
                 return finish(('E-call-raised', f'call #{ncalls} ({how}) raised {type(e).__name__}: {e}'[:300]), log, probes, nontrivial, case)
             ncalls += 1
-            bad = check_call(res, k, before, passed)
+            if how == 'feedback':
+                # the expected value for arguments that are not in the pool: the independent compile, evaluated on copies of the values that went in
+                try:
+                    want = _snapshot(ref({n: numpy.array(v, copy=True) for n, v in before.items()}))
+                except Exception as e:
+                    want = None
+                bad = None
+                if want is not None:
+                    d = _same(res, want, exact=False, tol=1e-9)
+                    if d:
+                        bad = ('V-result-depends-on-history', f'call #{ncalls} with a previously returned array handed back as argument {fed!r}: {d}')
+                    else:
+                        for name, arr in passed.items():
+                            if not numpy.array_equal(numpy.asarray(arr), before[name], equal_nan=True):
+                                bad = ('A-argument-modified', f'call #{ncalls} modified argument {name!r} (an array returned by an earlier call): {numpy.asarray(arr).ravel()[:5].tolist()} was {before[name].ravel()[:5].tolist()}')
+                                break
+            else:
+                bad = check_call(res, k, before, passed)
             log.append(('call', k, how, 'ok' if not bad else bad[0]))
             if bad:
                 return finish(bad, log, probes, nontrivial, case)
